@@ -143,3 +143,118 @@ Proof.
     exists h. split; [reflexivity|]. apply none_existing. eexists. exact H.
   - intros H. inversion H; subst. right. reflexivity.
 Qed.
+
+(** * what each kind of alias is relative to
+
+    [rel] below is [project_location c src]: the directory of the darklua configuration file
+    when there is one ([c_project c = Some location]), wherever that is; otherwise the directory
+    of the requiring file. *)
+
+Lemma project_location_configured c src location :
+  c_project c = Some location -> project_location c src = location.
+Proof. intros H. unfold project_location. rewrite H. reflexivity. Qed.
+
+Lemma project_location_default c d s :
+  c_project c = None -> project_location c (d ++ [Norm s]) = d.
+Proof. intros H. unfold project_location. rewrite H, parent_snoc by discriminate. reflexivity. Qed.
+
+(** a configured [sources] / [aliases] entry is joined onto the configuration location *)
+Lemma get_source_configured_path_mode c rc name rel alias :
+  c_luau c = false -> assoc name (c_sources c) = Some alias ->
+  get_source c rc name rel = Some (join rel alias).
+Proof. intros Hc Ha. unfold get_source. rewrite Hc, Ha. reflexivity. Qed.
+
+Lemma get_source_configured_luau_mode c rc name rel alias :
+  c_luau c = true -> rc_lookup rc name = None -> assoc name (c_sources c) = Some alias ->
+  get_source c rc name rel = Some (join rel alias).
+Proof. intros Hc Hr Ha. unfold get_source. rewrite Hc, Hr, Ha. reflexivity. Qed.
+
+(** a [.luaurc] alias is used as it is: it was resolved against the directory of its [.luaurc]
+    and is NOT joined onto the configuration location *)
+Lemma get_source_luaurc_path_mode c rc name rel p :
+  c_luau c = false -> assoc name (c_sources c) = None -> rc_lookup rc name = Some p ->
+  get_source c rc name rel = Some p.
+Proof. intros Hc Ha Hr. unfold get_source. rewrite Hc, Ha. exact Hr. Qed.
+
+Lemma get_source_luaurc_luau_mode c rc name rel p :
+  c_luau c = true -> rc_lookup rc name = Some p -> get_source c rc name rel = Some p.
+Proof. intros Hc Hr. unfold get_source. rewrite Hc, Hr. reflexivity. Qed.
+
+(** the nearest [.luaurc]: the first ancestor of the requiring file that has one *)
+Lemma first_rc_nearest rcs dirs d al :
+  first_rc rcs dirs = Some (d, al) ->
+  exists l1 l2, dirs = l1 ++ d :: l2 /\ rc_at rcs d = Some al /\ (forall x, In x l1 -> rc_at rcs x = None).
+Proof.
+  induction dirs as [|x dirs IH]; cbn [first_rc]; [discriminate|].
+  destruct (rc_at rcs x) as [al'|] eqn:E.
+  - intros H. inversion H; subst. exists [], dirs. repeat split; auto. intros y [].
+  - intros H. destruct (IH H) as (l1 & l2 & -> & Hd & Hl1). exists (x :: l1), l2. repeat split; auto.
+    intros y [<-|Hy]; auto.
+Qed.
+
+Lemma assoc_at_map (g : path -> path) k al :
+  assoc (at_sign :: k) (map (fun kv => (at_sign :: fst kv, g (snd kv))) al) = option_map g (assoc k al).
+Proof.
+  induction al as [|[k' v] al IH]; [reflexivity|].
+  cbn [map assoc fst snd bytes_eqb]. rewrite N.eqb_refl. cbn [andb].
+  destruct (bytes_eqb k k'); [reflexivity|exact IH].
+Qed.
+
+(** the aliases of the nearest [.luaurc], in directory [d], are [@name -> normalize (d/value)] *)
+Lemma rc_lookup_luaurc c rcs src d al k :
+  c_use_rc c = true -> first_rc rcs (ancestors src) = Some (d, al) ->
+  rc_lookup (rc_aliases c rcs src) (at_sign :: k) = option_map (fun v => normalize false (join d v)) (assoc k al).
+Proof.
+  intros Hc Hf. unfold rc_aliases. rewrite Hc, Hf. unfold rc_lookup.
+  apply (assoc_at_map (fun v => normalize false (join d v))).
+Qed.
+
+Lemma rc_lookup_disabled c rcs src name : c_use_rc c = false -> rc_lookup (rc_aliases c rcs src) name = None.
+Proof. intros H. unfold rc_aliases. rewrite H. reflexivity. Qed.
+
+(** path mode, [require("@k/rest")] where [@k] is only a [.luaurc] alias: the head is the alias
+    value relative to the [.luaurc] directory [d], whatever the configuration location is *)
+Theorem head_luaurc_alias_path_mode c rcs src d al k v rest :
+  c_luau c = false -> c_use_rc c = true ->
+  first_rc rcs (ancestors src) = Some (d, al) -> assoc k al = Some v ->
+  assoc (at_sign :: k) (c_sources c) = None ->
+  head_path c (rc_aliases c rcs src) src (Norm (at_sign :: k) :: rest) = inl (extend (normalize false (join d v)) rest).
+Proof.
+  intros Hc Hu Hf Hk Hs. rewrite head_source_path_mode by exact Hc.
+  rewrite (get_source_luaurc_path_mode c _ _ _ (normalize false (join d v)) Hc Hs).
+  - reflexivity.
+  - rewrite (rc_lookup_luaurc c rcs src d al k Hu Hf), Hk. reflexivity.
+Qed.
+
+(** luau mode: the same (the [.luaurc] alias also has precedence over a configured one) *)
+Theorem head_luaurc_alias_luau_mode c rcs src d al k v rest :
+  c_luau c = true -> c_use_rc c = true ->
+  first_rc rcs (ancestors src) = Some (d, al) -> assoc k al = Some v ->
+  bytes_eqb (at_sign :: k) self_name = false ->
+  head_path c (rc_aliases c rcs src) src (Norm (at_sign :: k) :: rest) = inl (extend (normalize false (join d v)) rest).
+Proof.
+  intros Hc Hu Hf Hk Hs. rewrite head_alias_luau_mode by (try exact Hc; try exact Hs; reflexivity).
+  rewrite (get_source_luaurc_luau_mode c _ _ _ (normalize false (join d v)) Hc).
+  - reflexivity.
+  - rewrite (rc_lookup_luaurc c rcs src d al k Hu Hf), Hk. reflexivity.
+Qed.
+
+(** a configured source, with the configuration in [location]: the head is [location/alias/rest] *)
+Theorem head_configured_source_path_mode c rc src location name alias rest :
+  c_luau c = false -> c_project c = Some location -> assoc name (c_sources c) = Some alias ->
+  head_path c rc src (Norm name :: rest) = inl (extend (join location alias) rest).
+Proof.
+  intros Hc Hp Ha. rewrite head_source_path_mode by exact Hc.
+  rewrite (project_location_configured c src location Hp).
+  rewrite (get_source_configured_path_mode c rc name location alias Hc Ha). reflexivity.
+Qed.
+
+Theorem head_configured_alias_luau_mode c rc src location k alias rest :
+  c_luau c = true -> c_project c = Some location -> bytes_eqb (at_sign :: k) self_name = false ->
+  rc_lookup rc (at_sign :: k) = None -> assoc (at_sign :: k) (c_sources c) = Some alias ->
+  head_path c rc src (Norm (at_sign :: k) :: rest) = inl (extend (join location alias) rest).
+Proof.
+  intros Hc Hp Hs Hr Ha. rewrite head_alias_luau_mode by (try exact Hc; try exact Hs; reflexivity).
+  rewrite (project_location_configured c src location Hp).
+  rewrite (get_source_configured_luau_mode c rc _ location alias Hc Hr Ha). reflexivity.
+Qed.
